@@ -420,13 +420,22 @@ def triviaPool : List String := [
   "", " ", "", "  ", "\n", "\t", " ", "\r\n", " # comment\n", "#\n", "# a \\\n continued \\\\\\\n more\n",
   " # even \\\\\n", "#\\\r\n x\n", "\n# x\n# y\n  ", "# \\\\\\\\\n", " ", "  ",
   -- a backslash followed by blanks before the newline does NOT continue the comment
-  "# note \\ \n", "# t \\\t\n", "#\\ \r\n", "# odd \\\\\\  \n", "# e \\ \\\n cont \\ \n"]
+  "# note \\ \n", "# t \\\t\n", "#\\ \r\n", "# odd \\\\\\  \n", "# e \\ \\\n cont \\ \n",
+  -- Unicode white space (`char::is_whitespace`): NBSP, EM SPACE + IDEOGRAPHIC SPACE, VT + FF, NEL, LS + PS, others
+  "\u00a0", "\u2003\u3000", "\x0b\x0c", "\u0085", "\u2028\u2029", "\u1680 \u205f\u202f"]
 
 def triviaNonEmpty : List String := triviaPool.filter (· ≠ "")
 
+/-- what may follow the last token: trivia, or a comment that reaches the end of the input
+(also through continuation lines) -/
+def endPool : List String := [
+  "", "", " ", "\n", "# end", "#", " # open \\", "# a \\\n b", "#\\\r\n x \\\\", "\t#x\\", "# c\n  ", "\u00a0#\\\n"]
+
 /-- concatenate pieces; trivia chosen from the stream (`[]`: as little as possible) -/
 def render : List Piece → Str → M Str
-  | [], acc => pure acc
+  | [], acc => do
+    let c ← pick 1000
+    pure (acc ++ (if c = 0 then "" else endPool[c % endPool.length]!).toList)
   | .glue s :: ps, acc => render ps (acc ++ s)
   | .tok s :: ps, acc => do
     let must := match acc.getLast?, s.head? with
